@@ -63,7 +63,25 @@ func zzScript() []byte {
 		p.pushes = append(p.pushes, b)
 	}
 	zzParseTab[tag] = p
-	return []byte{tag, vU8("scriptbyte")}
+	sb := vU8("scriptbyte")
+	if !vSymbolic() {
+		// native replay: a REAL script with the same parse result - one data push per modelled push
+		// (OP_DATA_n), or a truncated OP_PUSHDATA1 when the model says the script does not parse
+		if p.fail {
+			return []byte{0x4c}
+		}
+		var script []byte
+		for _, d := range p.pushes {
+			if len(d) == 0 {
+				script = append(script, 0x00) // OP_0: an empty push
+				continue
+			}
+			script = append(script, byte(len(d)))
+			script = append(script, d...)
+		}
+		return script
+	}
+	return []byte{tag, sb}
 }
 
 func zzTx(tag int, nout, nin int) *bchutil.Tx {
@@ -192,7 +210,19 @@ func ZZ_C20_locking() {
 	mu := &bf.mtx // whatever lock type the filter uses
 	method := vCase("method", 0, 9)
 	if !vSymbolic() {
-		// native replay: the discipline failure must show up as a data race under -race
+		// native replay: the discipline failure must show up as a data race under -race.
+		// A saturated filter with the update-all flag makes every transaction take the update path.
+		if bf.msgFilterLoad != nil {
+			for i := range bf.msgFilterLoad.Filter {
+				bf.msgFilterLoad.Filter[i] = 0xff
+			}
+			if len(bf.msgFilterLoad.Filter) == 0 {
+				bf.msgFilterLoad.Filter = []byte{0xff}
+			}
+			bf.msgFilterLoad.HashFuncs = 1
+			bf.msgFilterLoad.Flags = wire.BloomUpdateAll
+		}
+		tx = zzNativeTx()
 		var wg sync.WaitGroup
 		for g := 0; g < 8; g++ {
 			wg.Add(1)
@@ -242,4 +272,12 @@ func zzCall(bf *Filter, method int, item []byte, op *wire.OutPoint, h *chainhash
 	case 9:
 		bf.MsgFilterLoad()
 	}
+}
+
+// zzNativeTx: a real transaction with one data-push output and one input (native stress only).
+func zzNativeTx() *bchutil.Tx {
+	m := wire.NewMsgTx(1)
+	m.AddTxOut(&wire.TxOut{Value: 1, PkScript: []byte{0x02, 0xab, 0xcd}})
+	m.AddTxIn(wire.NewTxIn(&wire.OutPoint{Index: 1}, []byte{0x01, 0x07}))
+	return bchutil.NewTx(m)
 }
